@@ -41,9 +41,7 @@ def run_unit(unit):
         nt = nontrivial(lkeys, rkeys)
         if nt:
             agg.nontrivial += 1
-        if js.all_dtype_rejected(lkeys, rkeys, nkeys):
-            agg.skipped["all-None-vs-typed-key-column"] += 1
-            continue
+        maybe_rejected = js.all_dtype_rejected(lkeys, rkeys, nkeys)      # see props/c09.py: judged whenever the library does join
         for form in forms:
             results = {}
             for method in ("join", "full_join"):
@@ -65,6 +63,9 @@ def run_unit(unit):
                 try:
                     res = getattr(L, method)(R, left_on=lon, right_on=ron, expect="many_to_many")
                 except Exception as e:
+                    if maybe_rejected and "mismatched dtypes" in str(e):
+                        agg.skipped["all-None-vs-typed-key-column"] += 1
+                        continue
                     agg.violation(V(site, "raises-" + type(e).__name__, case, want, repr(e)[:120], py))
                     continue
                 agg.compared += 1
